@@ -734,6 +734,8 @@ class R:
                     raise ZeroDivisionError('division by zero')
                 n = tmul(n, 1 / d)
                 d = ONE
+        elif not _isz(n) and n == 0:
+            d = ONE
         self.n, self.d = n, d
 
     # -- construction helpers
@@ -755,10 +757,10 @@ class R:
 
     @property
     def concrete(self):
-        return not _isz(self.n)
+        return not _isz(self.n) and not _isz(self.d)
 
     def fr(self):
-        if _isz(self.n):
+        if _isz(self.n) or _isz(self.d):
             raise EncodingGap('concrete value of a symbolic real requested')
         return self.n
 
@@ -1182,6 +1184,23 @@ def _is0(r):
     return (not _isz(r.n)) and r.n == 0
 
 
+# --------------------------------------------------------------------------- strings
+
+class SymStr:
+    """Symbolic string (z3 String term with a length bound); only regex matching is modelled."""
+
+    def __init__(self, t, maxlen):
+        self.t, self.maxlen = t, maxlen
+
+    def __getattr__(self, k):
+        if k.startswith('__') and k.endswith('__'):
+            raise AttributeError(k)
+        raise EncodingGap(f'str.{k} on a symbolic string')
+
+    def __repr__(self):
+        return f'SymStr({self.t})'
+
+
 # --------------------------------------------------------------------------- misc
 
 _nd_types = ()
@@ -1242,6 +1261,15 @@ def vf_isinstance(obj, cls):
             return True
         if c is complex and builtins.isinstance(obj, C):
             return True
+        if c is str and builtins.isinstance(obj, SymStr):
+            return True
+        if type(c).__name__ == 'DT':
+            from .snp import scalar_tag
+            try:
+                if scalar_tag(obj) == c.tag:
+                    return True
+            except Exception:
+                pass
     return False
 
 
